@@ -3,6 +3,7 @@ import Driver.Merge
 import Driver.Schedule
 import Driver.Table
 import Driver.Extract
+import Driver.Sexp
 open Driver
 
 structure St where
@@ -19,6 +20,7 @@ def dispatch (s : St) (line : String) : St × String :=
   | "sc" :: rest => let (p, o) := scStep s.sc rest; ({ s with sc := p }, o)
   | "tb" :: rest => let (p, o) := tbStep s.tb rest; ({ s with tb := p }, o)
   | "ex" :: rest => let (p, o) := exStep s.ex rest; ({ s with ex := p }, o)
+  | "sx" :: rest => (s, sxStep rest)
   | _ => (s, "bad-op")
 
 partial def loop (h : IO.FS.Stream) (out : IO.FS.Stream) (s : St) : IO Unit := do
